@@ -97,6 +97,7 @@ def split_events(text):
 
 
 _PARAMS = None
+_OTHERS = []
 
 
 def observe_params():
@@ -112,14 +113,25 @@ def observe_params():
     rank = {}
     for k in "abs":
         rank[k] = 1 + sum(1 for o in "abs" if o != k and (less.get((o, k)) if (o, k) in less else not less[(k, o)]))
+    # the other registered value types (the base type, the Dwarf ones): what a
+    # slot-type constant with that code renders as
+    codes = [k for k in range(0, 48) if k not in tcs]
+    ns = zw.run_cases([zw.enc('T_CONST %d add "%%s"' % (k - tcs[0])) for k in codes])
+    others = []
+    for k, r in zip(codes, ns):
+        if r.ok() and r.results:
+            nm = bytes.fromhex(r.results[0][0]["v"])
+            if not nm.startswith(b"T_??? ("):
+                others.append("%d:x%s" % (k, nm.hex()))
     _PARAMS = tcs + [rank["a"], rank["b"], rank["s"]]
+    _OTHERS[:] = others
     return _PARAMS
 
 
 def _model_part(args, budget=120):
     sx_trees, fuel, limit, p = args[:4]
     mode = args[4] if len(args) > 4 else "run"
-    inp = " ".join(str(x) for x in p) + " %d %d\n" % (fuel, limit) + "".join(t + "\n" for t in sx_trees)
+    inp = " ".join(str(x) for x in p) + " %d %d" % (fuel, limit) + "".join(" " + o for o in _OTHERS) + "\n" + "".join(t + "\n" for t in sx_trees)
     rc, out, err = common.run(["bash", "-c", "ulimit -s 4000000 2>/dev/null; ulimit -v 12000000; exec %s %s" % (common.model_bin(), mode)],
                               input=inp, timeout=budget)
     lines = out.split("\n")
